@@ -165,6 +165,13 @@ impl Rig {
     }
 }
 
+impl Rig {
+    /// Replace the content of the ips file the sender re-reads on SIGHUP.
+    pub fn write_ips(&self, text: &str) -> Result<(), String> {
+        std::fs::write(&self.ips_path, text).map_err(|e| format!("write ips file: {e}"))
+    }
+}
+
 impl Drop for Rig {
     fn drop(&mut self) {
         let _ = std::fs::remove_file(&self.ips_path);
